@@ -339,7 +339,7 @@ def _build_patches():
     mmap_proxy = _MmapProxy()
     io_proxy = _IoProxy()
     storage_mods = (molli.storage.ukvfile, molli.storage.backends, molli.storage.collection, molli.chem.library)
-    return [
+    patches = [
         (_os, "fsync", _mk_fsync(_os.fsync)),
         (_os, "fdatasync", _mk_fsync(_os.fdatasync)),
         (_os, "fstat", _mk_fstat(_os.fstat)),
@@ -361,6 +361,18 @@ def _build_patches():
         # keyed or ordered by them) are the same in every process that executes a run
         (molli.config, "SHARED_DIR", K.SimPath(LOCK_ROOT)),
     ]
+    # `from os import fstat` (or `from io import open`, `from mmap import mmap`) binds the REAL function in the importing
+    # module when it is imported: patching the attribute of `os` later does not reach that name.  Every name of a storage
+    # module that is one of the real functions redirected above is therefore redirected in that module too.
+    redirected = {id(getattr(m_, n_)): w_ for (m_, n_, w_) in patches if m_ is _os and hasattr(m_, n_)}
+    redirected[id(_io.open)] = K.sim_open
+    redirected[id(_mmap.mmap)] = mmap_proxy.mmap
+    for m_ in storage_mods:
+        for n_, v_ in list(vars(m_).items()):
+            w_ = redirected.get(id(v_))
+            if w_ is not None and not any(pm is m_ and pn == n_ for (pm, pn, _w) in patches):
+                patches.append((m_, n_, w_))
+    return patches
 
 
 _MISSING = object()
